@@ -258,3 +258,25 @@ def ascii_instantiator(exprs):
             if sx.arg(0).eq(t1.arg(0)):
                 kx = sx.arg(1); out.append(z3.Implies(z3.And(t1, t1.arg(1) <= kx, kx < t1.arg(2)), z3.ULT(sx, 0x80)))
     return out
+
+
+def cnt_instantiator(exprs):
+    """explicit instances of lemma cnt_bounds (0 <= cnt_after(a,k) <= k) at every ground cnt_after term"""
+    out = []
+    for t in _apps_of(exprs, CNT)[:20]:
+        kx = t.arg(1); out.append(z3.Implies(kx >= 0, z3.And(t >= 0, t <= kx)))
+    return out
+
+
+LSKIPV = z3.RecFunction("lskip_octet", BYTE_ARR, BV8, I, I, I)      # first index in [i,n) whose octet differs from the given one, else n
+z3.RecAddDefinition(LSKIPV, [a, bv, i, n], z3.If(i >= n, n, z3.If(a[i] == bv, LSKIPV(a, bv, i + 1, n), i)))
+def lskipv_lemma(Obligation):
+    bnd = lambda p_: z3.And(LSKIPV(a, bv, p_, n) >= p_, LSKIPV(a, bv, p_, n) <= n)
+    obl = [Obligation("lemma.lskip_octet_bounds#base", [p == n], bnd(p), use_axioms=False, kind="lemma"),
+           Obligation("lemma.lskip_octet_bounds#step", [p < n, bnd(p + 1)], bnd(p), use_axioms=False, kind="lemma")]
+    return obl, {"lskipv_bounds": z3.ForAll([a, bv, p, n], z3.Implies(p <= n, bnd(p)), patterns=[LSKIPV(a, bv, p, n)])}
+def lskipv_instantiator(exprs):
+    out = []
+    for t in _apps_of(exprs, LSKIPV)[:10]:
+        a_, v_, p1, n1 = t.children(); out.append(z3.Implies(p1 <= n1, z3.And(t >= p1, t <= n1)))
+    return out
